@@ -416,6 +416,10 @@ def mon_c20(sess, sc):
             bad.append(("shutdown", "open-descriptors", "left open at exit: %s" % f["leaks"]))
         if f.get("kids"):
             bad.append(("shutdown", "children", "%d children neither killed nor reaped at exit" % f["kids"]))
+        if f.get("heapleak"):
+            m = re.findall(r"#\d+ 0x[0-9a-f]+ in (\w+)", sess.stderr())
+            where = next((x for x in m if x not in ("malloc", "calloc", "realloc", "strdup", "xmalloc", "xstrdup", "xrealloc", "__interceptor_malloc", "__interceptor_strdup")), "?")
+            bad.append(("heap", "leak:%s" % where, "heap objects unreachable at exit (LeakSanitizer): allocated in %s | %s" % (where, sess.stderr()[-700:])))
     return bad
 
 
